@@ -52,6 +52,10 @@ def conservative_network(r, h):
             kf = 0.0
         if m_ >= 2 and n_ > m_:
             kr = 0.0
+        if gen.autocatalytic(s_, p_):
+            kf = 0.0
+        if gen.autocatalytic(p_, s_):
+            kr = 0.0
         if n_ >= 1 and m_ > n_:      # no exponential growth over long runs (tau-leap is undefined once propensity*dt >= 2^63)
             kf = 0.0
         if m_ >= 1 and n_ > m_:
